@@ -27,6 +27,7 @@ var concKinds = []string{"create", "match", "mismatch", "update"}
 
 type concCall struct {
 	G, Test, Kind, Value string
+	Second               bool // the goroutine makes a second, creating call afterwards (ordinal 2)
 }
 
 // what the shared file / directory holds before the calls, and the step of one call
@@ -74,7 +75,11 @@ func concScenario(id string, calls []concCall, order []int, standalone bool, sch
 	sc.Init = concInit(calls, order, standalone)
 	st := &Step{Op: "conc", Schedule: schedule}
 	for _, c := range calls {
-		st.Gs = append(st.Gs, &ConcG{G: c.G, Test: c.Test, Steps: []*Step{concStep(c, standalone)}})
+		steps := []*Step{concStep(c, standalone)}
+		if c.Second {
+			steps = append(steps, concStep(concCall{G: c.G, Test: c.Test, Kind: "create", Value: "second value of " + c.Test}, standalone))
+		}
+		st.Gs = append(st.Gs, &ConcG{G: c.G, Test: c.Test, Steps: steps})
 		sc.Program = append(sc.Program, c.Test)
 	}
 	sc.Procs = append(sc.Procs, &Proc{Spec: ProcSpec{}, Steps: []*Step{st}})
@@ -91,13 +96,13 @@ type gateRec struct {
 type concRun struct {
 	Log      []gateRec
 	Note     string
-	Outcomes map[string]string // test -> outcome
+	Outcomes map[string][]string // test -> outcomes of its calls in order
 	Final    []byte            // the shared multi-entry file afterwards
 	FinalAll map[string][]byte
 }
 
 func readConcRun(r *ScenarioRun) (*concRun, error) {
-	cr := &concRun{Outcomes: map[string]string{}, FinalAll: map[string][]byte{}}
+	cr := &concRun{Outcomes: map[string][]string{}, FinalAll: map[string][]byte{}}
 	found := false
 	for _, e := range r.Raw[0] {
 		if e == nil {
@@ -120,7 +125,7 @@ func readConcRun(r *ScenarioRun) (*concRun, error) {
 			case len(e.Errs) == 1 && len(logs) == 0:
 				o = "failed"
 			}
-			cr.Outcomes[e.T] = o
+			cr.Outcomes[e.T] = append(cr.Outcomes[e.T], o)
 		case "concend":
 			found = true
 			cr.Note = e.Note
@@ -251,38 +256,34 @@ func scheduleOfDump(path string) ([]string, error) {
 	if err != nil {
 		return nil, err
 	}
+	// {"counterexample":{"action":[[[n, state], {action}, [n+1, state]], ...]}}
 	var d struct {
-		State []map[string]any `json:"state"`
+		Counterexample struct {
+			Action [][]json.RawMessage `json:"action"`
+		} `json:"counterexample"`
 	}
 	if err := json.Unmarshal(b, &d); err != nil {
-		// newer dumps: {"state": [[n, {vars}], ...]}
-		var d2 struct {
-			State [][]any `json:"state"`
-		}
-		if err2 := json.Unmarshal(b, &d2); err2 != nil {
-			return nil, err
-		}
-		var out []string
-		for _, s := range d2.State {
-			if len(s) < 2 {
-				continue
-			}
-			if m, ok := s[1].(map[string]any); ok {
-				if st, ok := m["step"].(map[string]any); ok {
-					if g, _ := st["g"].(string); g != "" {
-						out = append(out, g)
-					}
-				}
-			}
-		}
-		return out, nil
+		return nil, err
 	}
 	var out []string
-	for _, s := range d.State {
-		if st, ok := s["step"].(map[string]any); ok {
-			if g, _ := st["g"].(string); g != "" {
-				out = append(out, g)
-			}
+	for _, tr := range d.Counterexample.Action {
+		if len(tr) < 3 {
+			continue
+		}
+		var post []json.RawMessage
+		if err := json.Unmarshal(tr[2], &post); err != nil || len(post) < 2 {
+			continue
+		}
+		var st struct {
+			Step struct {
+				G string `json:"g"`
+			} `json:"step"`
+		}
+		if err := json.Unmarshal(post[1], &st); err != nil {
+			continue
+		}
+		if st.Step.G != "" {
+			out = append(out, st.Step.G)
 		}
 	}
 	return out, nil
@@ -317,8 +318,17 @@ func (c *CheckCtx) judgeConc(cases []*concCase, label string) error {
 		il, inl := splitFile(initB)
 		fl, fnl := splitFile(cs.run.Final)
 		calls := []any{}
+		outOf := func(t string, k int) string {
+			if k < len(cs.run.Outcomes[t]) {
+				return cs.run.Outcomes[t][k]
+			}
+			return "none"
+		}
 		for _, cc := range cs.calls {
-			calls = append(calls, map[string]any{"t": cc.Test, "v": a.valueLines(cc.Value), "upd": cc.Kind == "update", "out": cs.run.Outcomes[cc.Test], "kind": cc.Kind})
+			calls = append(calls, map[string]any{"t": cc.Test, "k": 1, "v": a.valueLines(cc.Value), "upd": cc.Kind == "update", "out": outOf(cc.Test, 0), "kind": cc.Kind})
+			if cc.Second {
+				calls = append(calls, map[string]any{"t": cc.Test, "k": 2, "v": a.valueLines("second value of " + cc.Test), "upd": false, "out": outOf(cc.Test, 1), "kind": "create"})
+			}
 		}
 		rec := map[string]any{"n": i, "init": map[string]any{"lines": a.lines(il), "nl": inl}, "final": map[string]any{"lines": a.lines(fl), "nl": fnl},
 			"calls": calls, "note": cs.run.Note, "schedule": append([]string{}, cs.schedule...)}
@@ -541,6 +551,12 @@ func checkC06(c *CheckCtx) error {
 			return inconclusive("TLC's counterexample schedule(s) on the extracted programs did not reproduce on the real code (model and code disagree about a primitive): no verdict")
 		}
 	}
+	// two calls in one goroutine while the other test starts and finishes in between (ordinals
+	// of a running test must survive another test's cleanup)
+	for _, kb := range []string{"create", "update", "match"} {
+		calls := []concCall{{G: "A", Test: "TestA", Kind: "create", Value: "value of A", Second: true}, {G: "B", Test: "TestB", Kind: kb, Value: "value of B"}}
+		pairs = append(pairs, pairT{calls, []int{0, 1}})
+	}
 	// schedules enumerated directly on the real code
 	var all []*concCase
 	for i, p := range pairs {
@@ -632,7 +648,7 @@ func (c *CheckCtx) raceRun() error {
 	sort.Strings(races)
 	races = dedupe(races)
 	for _, r := range races {
-		c.Violations = append(c.Violations, &Violation{Prop: "C06", Kind: "race", What: "Go race detector: " + r})
+		c.Violations = append(c.Violations, &Violation{Prop: c.Prop, Kind: "race", What: "Go race detector: " + r})
 	}
 	c.note("race detector: %d parallel programs (2 executions each, -parallel 8), %d distinct race report(s)", n, len(races))
 	return nil
